@@ -60,6 +60,19 @@ pub fn run(out: &mut Out, tier: &str, rng: &mut Rng) {
             out.count(&format!("signal burst {} while a frame is half received", burst));
         }
     }
+    // the hostile corpus shared by the session family: whatever a frame carries, the frames after it are dispatched
+    for (i, h) in hostile_corpus(rng).into_iter().enumerate() {
+        let mut st = if i % 2 == 0 { vec![] } else { session_frame(0x10, "h").bytes };
+        st.extend(&h.bytes);
+        st.extend(sess::frame(0x20, &[0x00]));
+        st.extend(sess::frame(0x45, &[0x1E, 1]));
+        sess::run_case(out, &inst, "sess", &[Ev::Bytes(st.clone())], true);
+        if i % 5 == 0 {
+            let cut = 1 + rng.below(st.len() as u64 - 1) as usize;
+            sess::run_case(out, &inst, "sess", &chunks(&st, &[cut]), true);
+        }
+        out.count(&format!("hostile corpus: {}", h.class));
+    }
     let n_streams = if thorough { 4000 } else { 260 };
     for i in 0..n_streams {
         let nf = 1 + rng.below(4) as usize;
